@@ -650,8 +650,17 @@ func workflowCmd(job []byte, out *Out) error {
 	if err := json.Unmarshal(job, &js); err != nil {
 		return err
 	}
+	hangs := 0
 	for i := range js.Jobs {
+		if hangs >= 3 {
+			// enough evidence; do not spend a watchdog period on every remaining job
+			out.Emit(map[string]interface{}{"id": js.Jobs[i].ID, "fn": js.Jobs[i].Fn, "skipped": true})
+			continue
+		}
 		res := runWorkflowJob(&js.Jobs[i])
+		if h, _ := res["hang"].(bool); h {
+			hangs++
+		}
 		out.Emit(res)
 		out.Flush()
 	}
